@@ -83,3 +83,122 @@ Proof. intros. unfold fft. destruct (two_layer_engine e); [apply two_fft_len|app
 Lemma ifft_len {T} (ops : elt_ops T) e k trunc sd (l : list T) : (k <= 16)%nat -> N.of_nat (length l) = 2 ^ N.of_nat k ->
   length (ifft ops e (2 ^ N.of_nat k) trunc sd l) = length l.
 Proof. intros. unfold ifft. destruct (two_layer_engine e); [apply two_ifft_len|apply naive_ifft_len]; assumption. Qed.
+
+(* ---------- encode yields exactly recovery_count elements ---------- *)
+Section EncLen.
+Context {T : Type} (ops : elt_ops T).
+Variable e : engine.
+
+Lemma zero_tail_len keep (c : list T) : (keep <= length c)%nat -> length (zero_tail ops keep c) = length c.
+Proof. intros H. unfold zero_tail, zeros. rewrite app_length, firstn_length, repeat_length. lia. Qed.
+Lemma xor_list_len (a b : list T) : length (xor_list ops a b) = Nat.min (length a) (length b).
+Proof. unfold xor_list, map2. rewrite map_length, combine_length. reflexivity. Qed.
+
+(* npow2 as a power with an explicit exponent <= 16 *)
+Lemma npow2_exp x : 1 <= x -> x <= 65536 -> exists k, (k <= 16)%nat /\ npow2 x = 2 ^ N.of_nat k.
+Proof.
+  intros H1 H2. destruct (npow2_spec x H1) as (a & Ha & _ & Hmin).
+  exists (N.to_nat a). rewrite N2Nat.id. split; [|exact Ha].
+  specialize (Hmin 16 H2). apply N.pow_le_mono_r_iff in Hmin; lia.
+Qed.
+
+Lemma chunks_all_len m : (0 < m)%nat -> forall fuel (l : list T) q, length l = (m * q)%nat ->
+  Forall (fun c => length c = m) (chunks fuel m l).
+Proof.
+  intros Hm. induction fuel as [|f IH]; intros l q Hl; cbn [chunks]; [constructor|].
+  destruct l as [|x l]; [constructor|]. destruct q as [|q]; [rewrite Nat.mul_0_r in Hl; discriminate|].
+  constructor.
+  - rewrite firstn_length. rewrite Hl. nia.
+  - apply (IH _ q). rewrite skipn_length, Hl. nia.
+Qed.
+
+Lemma high_enc_chunks_len K m k : (k <= 16)%nat -> m = 2 ^ N.of_nat k -> forall cl cs acc,
+  length acc = N.to_nat m -> Forall (fun c => length c = N.to_nat m) cl ->
+  length (high_enc_chunks ops e K m cs acc cl) = N.to_nat m.
+Proof.
+  intros Hk Hm. induction cl as [|c cl IH]; intros cs acc Ha Hc; cbn [high_enc_chunks]; [exact Ha|].
+  pose proof (Forall_inv Hc) as Hc1. pose proof (Forall_inv_tail Hc) as Hc2. cbv beta in Hc1.
+  assert (Lc : N.of_nat (length c) = 2 ^ N.of_nat k) by (rewrite Hc1, <- Hm; apply N2Nat.id).
+  destruct (cs + m <=? K).
+  - apply IH; [|exact Hc2]. rewrite xor_list_len, Ha. rewrite Hm at 2. rewrite ifft_len by assumption. lia.
+  - destruct (0 <? K mod m) eqn:El; [|exact Ha].
+    rewrite xor_list_len, Ha. rewrite Hm at 2.
+    pose proof (N.mod_upper_bound K m ltac:(rewrite Hm; apply N.pow_nonzero; lia)) as Hmod.
+    rewrite ifft_len; try assumption.
+    + rewrite zero_tail_len by lia. lia.
+    + rewrite zero_tail_len by lia. exact Lc.
+Qed.
+
+Theorem encode_high_length K R (w : list T) : 1 <= K -> 1 <= R -> R < 65536 ->
+  length w = N.to_nat (high_enc_work_count K R) -> length (encode_high ops e K R w) = N.to_nat R.
+Proof.
+  intros HK HR HR2 Hw. unfold encode_high. unfold high_enc_work_count, np2 in *.
+  destruct (npow2_exp R HR ltac:(lia)) as (k & Hk & Hm). set (m := npow2 R) in *.
+  assert (Hmpos : 0 < m) by (rewrite Hm; pose proof (N.pow_nonzero 2 (N.of_nat k)); lia).
+  pose proof (npow2_ge R) as HRm. fold m in HRm.
+  destruct (next_mult_bounds K m ltac:(lia)) as (B1 & B2 & B3).
+  assert (Hq : exists q, next_mult K m = m * q /\ 1 <= q).
+  { exists (next_mult K m / m). pose proof (N.div_mod (next_mult K m) m ltac:(lia)) as D. rewrite B3 in D.
+    rewrite N.add_0_r in D. split; [exact D|].
+    destruct (N.eq_dec (next_mult K m / m) 0) as [E|E]; [rewrite E, N.mul_0_r in D; lia|lia]. }
+  destruct Hq as (q & Hq & Hq1).
+  assert (Hwn : length w = (N.to_nat m * N.to_nat q)%nat) by (rewrite Hw, Hq; lia).
+  pose proof (chunks_all_len (N.to_nat m) ltac:(lia) (length w) w (N.to_nat q) Hwn) as Hch.
+  destruct (chunks (length w) (N.to_nat m) w) as [|c0 rest] eqn:Ec.
+  - exfalso. destruct w as [|x w0]; [cbn in Hwn; lia|]. cbn in Ec. discriminate.
+  - pose proof (Forall_inv Hch) as H0. pose proof (Forall_inv_tail Hch) as Hrest. cbv beta in H0.
+    assert (L0 : N.of_nat (length c0) = 2 ^ N.of_nat k) by (rewrite H0, <- Hm; apply N2Nat.id).
+    set (c0' := ifft ops e m (N.min K m) m (zero_tail ops (N.to_nat (N.min K m)) c0)).
+    assert (Lc0' : length c0' = N.to_nat m).
+    { unfold c0'. rewrite Hm at 1. rewrite ifft_len; try assumption; rewrite zero_tail_len by lia; [exact H0|exact L0]. }
+    assert (Lacc : length (if m <? K then high_enc_chunks ops e K m m c0' rest else c0') = N.to_nat m).
+    { destruct (m <? K); [|exact Lc0']. apply (high_enc_chunks_len K m k Hk Hm); assumption. }
+    rewrite firstn_length, fft_len; [rewrite Lacc; lia|]. rewrite Lacc. apply N2Nat.id.
+Qed.
+
+Lemma low_enc_chunks_len R m k : (k <= 16)%nat -> m = 2 ^ N.of_nat k -> forall fuel cs (co : list T) j,
+  length co = N.to_nat m -> cs = j * m -> cs <= R -> (N.to_nat ((R - cs) / m) < fuel)%nat ->
+  (N.to_nat (R - cs) <= length (low_enc_chunks ops e fuel R m cs co))%nat.
+Proof.
+  intros Hk Hm. assert (Hmpos : 0 < m) by (rewrite Hm; pose proof (N.pow_nonzero 2 (N.of_nat k)); lia).
+  induction fuel as [|f IH]; intros cs co j Hco Hj Hcs Hf; [exfalso; exact (Nat.nlt_0_r _ Hf)|].
+  cbn [low_enc_chunks].
+  assert (Lco : N.of_nat (length co) = 2 ^ N.of_nat k) by (rewrite Hco, <- Hm; apply N2Nat.id).
+  destruct (N.leb_spec (cs + m) R) as [Hfull|Hpart].
+  - rewrite app_length. rewrite Hm at 1. rewrite fft_len by assumption.
+    assert (Hd : (R - cs) / m = (R - (cs + m)) / m + 1).
+    { replace (R - cs) with ((R - (cs + m)) + 1 * m) by lia. rewrite N.div_add by lia. reflexivity. }
+    assert (Hj' : cs + m = (j + 1) * m) by (rewrite Hj, N.mul_add_distr_r, N.mul_1_l; reflexivity).
+    assert (Hf' : (N.to_nat ((R - (cs + m)) / m) < f)%nat).
+    { rewrite Hd in Hf. remember ((R - (cs + m)) / m) as qq. clear - Hf. lia. }
+    specialize (IH (cs + m) co (j + 1) Hco Hj' Hfull Hf').
+    remember (length (low_enc_chunks ops e f R m (cs + m) co)) as LL. rewrite Hco. clear - IH Hfull Hmpos. lia.
+  - destruct (0 <? R mod m) eqn:El.
+    + rewrite Hm at 1. rewrite fft_len by assumption. rewrite Hco. clear - Hpart Hcs. lia.
+    + apply N.ltb_ge in El. assert (E0 : R mod m = 0) by (remember (R mod m) as rm; clear - El; lia).
+      pose proof (N.div_mod R m ltac:(lia)) as D. rewrite E0, N.add_0_r in D.
+      (* R and cs are multiples of m with cs <= R < cs + m *)
+      assert (R = cs) as ->; [|rewrite N.sub_diag; cbn; apply Nat.le_0_l]. subst cs.
+      assert (Hq : R / m = j); [|rewrite D, Hq; apply N.mul_comm].
+      assert (H1 : j <= R / m) by (apply N.div_le_lower_bound; [clear - Hmpos; lia|rewrite N.mul_comm; exact Hcs]).
+      assert (H2 : R / m < j + 1) by (apply N.div_lt_upper_bound; [clear - Hmpos; lia|rewrite N.mul_comm, N.mul_add_distr_r, N.mul_1_l; exact Hpart]).
+      remember (R / m) as qq. clear - H1 H2. lia.
+Qed.
+
+Theorem encode_low_length K R (w : list T) : 1 <= K -> K <= 65536 -> 1 <= R ->
+  (N.to_nat (np2 K) <= length w)%nat -> length (encode_low ops e K R w) = N.to_nat R.
+Proof.
+  intros HK HK2 HR Hw. unfold encode_low. unfold np2 in *.
+  destruct (npow2_exp K HK HK2) as (k & Hk & Hm). set (m := npow2 K) in *.
+  assert (Hmpos : 0 < m) by (rewrite Hm; pose proof (N.pow_nonzero 2 (N.of_nat k)); lia).
+  pose proof (npow2_ge K) as HKm. fold m in HKm.
+  set (c0 := zero_tail ops (N.to_nat K) (firstn (N.to_nat m) w)).
+  assert (L0 : length c0 = N.to_nat m) by (unfold c0; rewrite zero_tail_len; rewrite firstn_length; lia).
+  set (co := ifft ops e m K 0 c0).
+  assert (Lco : length co = N.to_nat m).
+  { unfold co. rewrite Hm at 1. rewrite ifft_len; try assumption. rewrite L0, <- Hm. apply N2Nat.id. }
+  pose proof (low_enc_chunks_len R m k Hk Hm (S (N.to_nat (R / m))) 0 co 0 Lco ltac:(lia) ltac:(lia)) as H.
+  rewrite N.sub_0_r in H. specialize (H ltac:(lia)).
+  rewrite firstn_length. lia.
+Qed.
+End EncLen.
